@@ -138,3 +138,32 @@ func verbatimRule(p *core.Program, r *core.Report, rule string, pkgs []string) {
 		r.Check(bad == "", rule, core.FuncName(fi.Obj), p.Pos(fi.Decl.Pos()), "what is read is handed on unchanged", bad)
 	}
 }
+
+// noTransformRule: in the given packages no function named fnName (the step that turns the carried
+// text back into fields) passes text through a text-transforming function of the standard library:
+// what was set is what comes back, blanks and letter case included.
+func noTransformRule(p *core.Program, r *core.Report, rule string, pkgs []string, fnName string) {
+	in := map[string]bool{}
+	for _, k := range pkgs {
+		in[k] = true
+	}
+	for _, fi := range p.Funcs {
+		if fi.Decl.Body == nil || !in[core.RelPkg(fi.Pkg.PkgPath)] || fi.Obj.Name() != fnName {
+			continue
+		}
+		info := fi.Pkg.TypesInfo
+		bad := ""
+		ast.Inspect(fi.Decl.Body, func(n ast.Node) bool {
+			call, ok := n.(*ast.CallExpr)
+			if !ok {
+				return true
+			}
+			fn := calleeFunc(info, call)
+			if fn != nil && fn.Pkg() != nil && textTransformers[fn.Pkg().Name()+"."+fn.Name()] {
+				bad = "passes text through " + fn.Pkg().Name() + "." + fn.Name() + " at " + p.Pos(call.Pos()) + ": keys and values with surrounding blanks (or whatever else the function changes) do not come back as they were set"
+			}
+			return true
+		})
+		r.Check(bad == "", rule, core.FuncName(fi.Obj), p.Pos(fi.Decl.Pos()), "the text is taken apart as it stands", bad)
+	}
+}
